@@ -8,8 +8,18 @@ Ledger per monitored object: subs(obj) = number of live subscriptions of the eng
   unmonitor / close_run / clear_monitors: subs = 0 and the object forgotten ("no remaining subscription")
   entering a pause or a suspension: subs = 0 for every monitored object of every open run (updates are not reported)
   resume / release: subs = 1 again - exactly one subscription, however often suspend / restore were requested
+Histories (tasks bundler.history[*]): from every abstract pre-state of a run (live / suspended / restored / partly unmonitored ...) every pair
+of operations; after each one the ledger equals the ghost model (live iff open, monitored, not suspended), an update of a signal yields
+exactly one event iff its subscription is live, and an update arriving while the stop document is dispatched yields no event after it
+(the subscriptions are removed *before* the stop document goes out).
+Engine level (T2 tasks engine.pause / engine.suspend / engine.pause+suspend): the real RunEngine under the asyncio model with an arbitrary
+plan over open_run / monitor / unmonitor / close_run / checkpoint (two runs open at once in some scenarios), pauses and suspensions requested
+at every loop step, back to back, and while the engine sits paused, every post-pause decision; ghost monitor contracts/run_mon4.py:
+  while the engine is paused no run holds a live subscription; while the plan is suspended (pre-plan, wait) neither;
+  once the engine runs again every monitor of an open run is subscribed when the next message is executed; at idle nothing is left.
 """
 import ast
+import os
 
 from .lib import *
 from .re_lib import *
@@ -20,19 +30,21 @@ Q = f"{MB}:RunBundler"
 IMS = "bluesky.utils:IllegalMessageSequence"
 TRUSTED = EM_ASSUMPTIONS + ["devices: subscribe(cb) adds one subscription of cb, clear_sub(cb) removes every subscription of cb (ophyd semantics); "
                             "callbacks already in flight on a device thread are not modelled"]
-NOT_DECIDED = "callbacks in flight on a device thread while the subscription is being removed; the order of pause-branch steps inside _run (T2)"
+NOT_DECIDED = "callbacks in flight on a device thread while the subscription is being removed"
 
 
 def monitored(I, w, b, name):
-    state = {"subs": 0, "calls": []}
+    state = {"subs": 0, "calls": [], "cbs": []}
 
     def subscribe(I_, o, a, k):
-        state["subs"] += 1
+        state["cbs"].append(a[0])
+        state["subs"] = len(state["cbs"])
         state["calls"].append("subscribe")
         state["cb"] = a[0]
 
     def clear_sub(I_, o, a, k):
-        state["subs"] = 0
+        state["cbs"] = [c for c in state["cbs"] if c is not a[0]]
+        state["subs"] = len(state["cbs"])
         state["calls"].append("clear_sub")
     conf = {"gain": 1, "ts": 0}
     d = cfg_device(I, w, b, name, [name], conf)
@@ -94,6 +106,103 @@ def bundler_monitors(I):
         w.check(f"{Q}.clear_monitors#ensures[every monitor subscription removed]", st["subs"] == 0 and st2["subs"] == 0 and len(b._monitor_params) == 0, rp)
 
 
+# ---------------------------------------------------------------------------------------------------------------- histories (T1)
+# The statement quantifies over histories of signal updates interleaved with suspensions (pause), restorations (resume), unmonitor and the
+# end of the run.  Ghost model of one run: open, suspended, monitored(dev); a device's subscription is *live* iff open and monitored(dev) and not
+# suspended.  From each abstract pre-state (established by a canonical prefix) every pair of operations is executed on the real RunBundler;
+# after every operation: the ledger equals the ghost model, an update of each signal yields exactly one event iff its subscription is live,
+# and - an update arriving while a stop document is being dispatched - no event follows the stop document of the run.
+H_LEDGER = f"{Q}#invariant[a monitored signal carries exactly one engine subscription iff its run is open and monitors are not suspended, else none; forgotten iff not monitored]"
+H_EVENTS = f"{Q}.monitor.emit_event#ensures[an update yields exactly one event in the monitor's stream iff the subscription is live, none otherwise]"
+H_STOP = f"{Q}.close_run#ensures[subscriptions are removed before the stop document goes out: an update arriving while it is dispatched yields no event after it]"
+H_REJECT = f"{Q}#raises[monitor of a monitored signal, unmonitor of an unmonitored one, close_run without an open run are rejected with IllegalMessageSequence, nothing else is]"
+PREFIXES = {"live": [], "suspended": ["suspend"], "restored": ["suspend", "restore"], "one-unmonitored": ["unmonitor"],
+            "unmonitored-while-suspended": ["suspend", "unmonitor"], "suspended-twice": ["suspend", "suspend"],
+            "unmonitored-while-suspended-then-restored": ["suspend", "unmonitor", "restore"]}
+H_OPS = ["suspend", "restore", "unmonitor", "monitor", "close_run", "clear_monitors"]
+
+
+def history_task(label, prefix):
+    @task(f"bundler.history[{label}]", PROP, functions=[f"{Q}.monitor", f"{Q}.monitor.emit_event", f"{Q}.unmonitor", f"{Q}.suspend_monitors", f"{Q}.restore_monitors",
+                                                        f"{Q}.clear_monitors", f"{Q}.close_run"],
+          expect=[H_LEDGER, H_EVENTS, H_STOP, H_REJECT])
+    def t(I):
+        w = I.w
+        env, b = bundler_setup(I)
+        d, st = monitored(I, w, b, "sig")
+        d2, st2 = monitored(I, w, b, "sig2")
+        devs = {"sig": (d, st), "sig2": (d2, st2)}
+
+        def update(name):
+            """the signal changes: the device calls every callback subscribed at that moment; -> number of events emitted"""
+            n0 = len([1 for n, x in env.emitted if n == "event"])
+            for cb in list(devs[name][1]["cbs"]):
+                I.call_value(cb)
+            return len([1 for n, x in env.emitted if n == "event"]) - n0
+
+        def emit(I_, a, k):
+            env.emitted.append((docname(a[0]), a[1]))
+            if docname(a[0]) == "stop":
+                for name in devs:                  # signal updates arriving while the stop document is being dispatched
+                    update(name)
+            return Ready(None)
+        emit._canon_label = "emit"
+        I.setattr(b, "emit", native(emit))
+        g = {"open": True, "suspended": False, "mon": {"sig": False, "sig2": False}}
+        done = []
+
+        def live(name):
+            return g["open"] and g["mon"][name] and not g["suspended"]
+
+        def apply(op):
+            """one operation on the real bundler and on the ghost model; checks the clauses afterwards"""
+            done.append(op)
+            info = {"replay": "monitors.history", "ops": list(done)}
+            if op == "suspend":
+                r, want = call_async(I, I.getattr(b, "suspend_monitors")), "ok"
+                g["suspended"] = True
+            elif op == "restore":
+                r, want = call_async(I, I.getattr(b, "restore_monitors")), "ok"
+                g["suspended"] = False
+            elif op == "unmonitor":
+                r = call_async(I, I.getattr(b, "unmonitor"), MsgVal("unmonitor", d, (), {}, None))
+                want = "ok" if g["mon"]["sig"] else "raise"
+                g["mon"]["sig"] = False
+            elif op in ("monitor", "monitor2"):
+                name = "sig" if op == "monitor" else "sig2"
+                r = call_async(I, I.getattr(b, "monitor"), MsgVal("monitor", devs[name][0], (), {"name": "mon_" + name}, None))
+                want = "raise" if g["mon"][name] else "ok"
+                g["mon"][name] = True
+            elif op == "close_run":
+                r = call_async(I, I.getattr(b, "close_run"), MsgVal("close_run", None, (), {}, None))
+                want = "ok" if g["open"] else "raise"
+                g["open"] = False
+                g["mon"] = {"sig": False, "sig2": False}
+            else:
+                r, want = catch(I, I.getattr(b, "clear_monitors")), "ok"
+                g["mon"] = {"sig": False, "sig2": False}
+            w.check(H_REJECT, r[0] == want and (r[0] == "ok" or exc_is(I, r[1], IMS)), dict(info, outcome=r[0], wanted=want))
+            w.check(H_LEDGER, all(devs[n][1]["subs"] == (1 if live(n) else 0) and (devs[n][0] in b._monitor_params) == g["mon"][n] for n in devs),
+                    dict(info, ledger={n: devs[n][1]["subs"] for n in devs}, model={n: live(n) for n in devs}))
+            counts = {n: update(n) for n in devs}
+            w.check(H_EVENTS, all(counts[n] == (1 if live(n) else 0) for n in devs), dict(info, events=counts, model={n: live(n) for n in devs}))
+            names = [n for n, x in env.emitted]
+            w.check(H_STOP, "stop" not in names or "event" not in names[names.index("stop"):], dict(info, documents=names))
+
+        for op in ["monitor", "monitor2"] + prefix:
+            apply(op)
+        for k in (1, 2):
+            # (messages reach a bundler only while its run is open - the RunEngine drops a closed bundler; a 'monitor' / 'unmonitor' while the
+            # monitors are suspended comes from a suspender's pre-plan)
+            ops = [o for o in H_OPS if g["open"] or o in ("suspend", "restore", "clear_monitors")]
+            apply(w.choose(ops, f"operation {k}"))
+    return t
+
+
+for _label, _prefix in PREFIXES.items():
+    history_task(_label, _prefix)
+
+
 @task("engine.suspension", PROP, functions=[f"{RE}._start_suspender", f"{RE}._resume", f"{RE}._rewind", f"{RE}._stop_movable_objects"],
       expect=[f"{RE}._start_suspender#ensures[every monitor of every open run is unsubscribed while the suspension lasts]",
               f"{RE}._resume#ensures[exactly one subscription per monitor after release]"])
@@ -111,7 +220,7 @@ def engine_suspension(I):
                   _response_stack=collections.deque([None]), _msg_cache=collections.deque(), _rewindable_flag=True)
     fut = Opaque("fut", {"token": "fut"})
     n = w.choose([1, 2], "overlapping suspensions")
-    rp = {"replay": "monitors.suspension"}
+    rp = {"replay": "monitors.engine_suspension"}
     ok = True
     for _ in range(n):
         r = call_async(I, I.getattr(re_, "_start_suspender"), MsgVal("_start_suspender", None, (None, None, "why", fut), {}, None))
@@ -138,3 +247,63 @@ def pause_branch(I):
     i_r = src.find("restore_monitors()", i_w)
     w.check(f"{RE}._run#ensures[pause branch: monitors suspended before the state becomes 'paused', restored after the permit]",
             0 <= i_s < i_p < i_w < i_r)
+
+
+# ------------------------------------------------------------------------------------------------------------------------------ T2
+# The real RunEngine (__call__, _run, resume, request_pause, request_suspend + _request_suspend, _start_suspender, _resume, _monitor,
+# _unmonitor, _open_run, _close_run, abort / stop / halt ...) under the asyncio model, with an arbitrary plan over open_run / monitor /
+# unmonitor / close_run / checkpoint / custom, pauses and suspensions requested at every step of the loop - also back to back, and
+# while the engine sits paused - and every post-pause decision; RunBundler is replaced by the contract the T1 tasks above establish.
+from .t2 import t2_tasks, T2_FUNCTIONS, TRUSTED_T2            # noqa: E402
+from .run_mon4 import c41_checks, C41 as C41Mon, M_PAUSED, M_SUSP, M_BACK, M_IDLE    # noqa: E402
+
+TRUSTED = TRUSTED + TRUSTED_T2 + [
+    "A-ENV: at most `max_inflight` requests of other threads are in flight at a time (two in the back-to-back scenario); no new pause / suspension is "
+    "requested while `max_depth` plans are stacked; while the engine sits paused another thread makes at most one request per pause (suspend), which "
+    "the loop thread handles before the user decides",
+    "T2 uses the contract of RunBundler (T1 tasks above): a run holds a live subscription iff it is open, monitors something and its monitors are not suspended",
+]
+NOT_DECIDED += ("; a suspension interrupted by a pause (the wait is abandoned: C11) - the suspended clause is stated for suspensions that are not "
+                "superseded by a pause or by abort / stop / halt; monitors started by a suspender's pre-plan")
+T2_MON = [f"{RE}._monitor", f"{RE}._unmonitor"]
+THOROUGH = os.environ.get("VERIF_TIER") == "thorough"
+
+PAUSE_SCN = [
+    ("open_run,monitor,unmonitor,checkpoint", "pause", {"max_requests": 1}),
+    ("open_run,monitor,close_run,custom,checkpoint", "pause", {"max_requests": 1}),
+    # two runs open at the same time, each with its own monitor
+    ("open_run,open_run_b,monitor,monitor_b,checkpoint", "pause", {"max_requests": 1, "post_pause": ("resume",)}),
+]
+SUSPEND_SCN = [
+    ("open_run,monitor,custom,checkpoint", "suspend", {"max_requests": 2, "suspend_plans": True}),
+    # two requests back to back: the second is queued before the first has been handled
+    ("open_run,monitor,checkpoint", "suspend", {"max_requests": 2, "max_inflight": 2, "max_depth": 3}),
+    ("open_run,open_run_b,monitor,monitor_b,checkpoint", "suspend", {"max_requests": 1}),
+]
+MIXED_SCN = [
+    # a suspender trips while the engine is paused; the user resumes (or aborts ...) afterwards
+    ("open_run,monitor,checkpoint", "pause", {"max_requests": 2, "paused_env": "suspend"}),
+    ("open_run,monitor,checkpoint", "pause,suspend", {"max_requests": 2, "max_inflight": 2, "post_pause": ("resume",)}),
+]
+if THOROUGH:
+    PAUSE_SCN += [("open_run,monitor,unmonitor,close_run,custom,checkpoint", "pause,abort", {"max_requests": 2})]
+    SUSPEND_SCN += [("open_run,monitor,unmonitor,close_run,custom,checkpoint", "suspend", {"max_requests": 2, "suspend_plans": True})]
+    MIXED_SCN += [("open_run,monitor,unmonitor,custom,checkpoint", "pause,suspend", {"max_requests": 3, "paused_env": "suspend", "suspend_plans": True})]
+
+t2_tasks(PROP, "engine.pause", PAUSE_SCN, [c41_checks], expect=[M_PAUSED, M_BACK, M_IDLE], functions=T2_MON)
+t2_tasks(PROP, "engine.suspend", SUSPEND_SCN, [c41_checks], expect=[M_SUSP, M_BACK, M_IDLE], functions=T2_MON)
+t2_tasks(PROP, "engine.pause+suspend", MIXED_SCN, [c41_checks], expect=[M_PAUSED, M_SUSP, M_BACK, M_IDLE], functions=T2_MON)
+
+
+def _twin(sc, tr):
+    m = C41Mon(sc, tr)
+
+    def check(kind, *a):
+        m(kind, *a)
+        if kind == "cut" and sc.eng.state == "paused" and any(b.open and b.monitoring for b in sc.eng.bundlers):
+            sc.w.check("twin:a paused engine keeps its monitors subscribed", bool(m.live()))
+    tr.checks.append(check)
+
+
+t2_tasks(PROP, "twin", [("open_run,monitor,checkpoint", "pause", {"max_requests": 1, "post_pause": ("abort",)})], [_twin],
+         twin="twin:a paused engine keeps its monitors subscribed")
